@@ -114,6 +114,7 @@ func c11(c *Ctx) {
 	r.Rule("R-C11.1", "EncryptMessage and decryptWithKey configure the AEAD with (key ID, shared key) taken as a pair from one key-producer call, and pass AAD = the key ID exactly when it is non-empty - the same table on both sides")
 	r.Rule("R-C11.2", "in DecryptMessage every attempt decrypts the given ciphertext; a successful attempt is final (only the success return is reachable from its success edge, no further attempt); both the current and the recorded previous key are tried; nil is returned only after one attempt succeeded; the result message is written only by proto.Unmarshal of the decrypted plaintext after a successful Decrypt")
 	r.Rule("R-C11.3", "the two X25519EncryptionKey implementations call types.X25519EncryptionKey with (own private, own type, peer public, peer type) and derive the key ID from CertificatePublicKeyPkix; the two SetPreviousEncryptionKey functions record (old key ID, old own private, old peer public) in the same roles and the Previous… methods read them back in that order; types.X25519EncryptionKey uses its parameters in those roles")
+	r.Rule("R-C11.5", "no size limit separates what EncryptMessage produces from what DecryptMessage accepts: an upper bound on the length of the incoming ciphertext in the decrypt path must be matched by an upper bound, with a constant not larger, on the bytes EncryptMessage returns (a bound on the plaintext is a different quantity)")
 	r.Rule("R-C11.4", "no crash: every panic site reachable from DecryptMessage is discharged; the unchecked Ciphertext[:12] of aead.Wrapper.Decrypt is a length precondition that decryptWithKey checks before the call")
 	r.NotDecided = append(r.NotDecided, "round-trip equality of messages", "AEAD authenticity", "X25519 commutativity")
 
@@ -121,6 +122,7 @@ func c11(c *Ctx) {
 	if da == nil {
 		return
 	}
+	c11SizeBounds(c)
 	decK := c.P.Func("", "decryptWithKey")
 	decM := c.P.Func("", "DecryptMessage")
 	c11Siblings(c)
@@ -482,4 +484,52 @@ func flipGuard(g core.Guard) core.Guard {
 		s, ok := g.Match(cond)
 		return 1 - s, ok
 	}}
+}
+
+
+// c11SizeBounds: R-C11.5.
+func c11SizeBounds(c *Ctx) {
+	p, r := c.P, c.R
+	enc := c.P.Func("", "EncryptMessage")
+	dec := c.P.Func("", "DecryptMessage")
+	if enc == nil || dec == nil {
+		return
+	}
+	ct := ssa.Value(paramNamedOrTyped(dec, 1))
+	var decBounds []lenBound
+	for _, b := range upperBoundTests(dec) {
+		// the ciphertext parameter, or bytes derived from it (the unmarshalled blob's ciphertext)
+		if b.Val == ct || core.PathOf(b.Val).Last() == "Ciphertext" {
+			decBounds = append(decBounds, b)
+		}
+	}
+	if len(decBounds) == 0 {
+		r.OK("R-C11.5", "nodeenrollment.DecryptMessage upper bound on the ciphertext", p.Pos(dec.Pos()), "none: every message EncryptMessage can produce is accepted by size")
+		return
+	}
+	// the bytes EncryptMessage returns
+	returned := map[ssa.Value]bool{}
+	for _, site := range tailReturnSites(enc) {
+		ret := site.Instr.(*ssa.Return)
+		site.In(func() { returned[core.Strip(ret.Results[0])] = true })
+	}
+	encK := int64(-1)
+	for _, b := range upperBoundTests(enc) {
+		if returned[b.Val] && (encK < 0 || b.K < encK) {
+			encK = b.K
+		}
+	}
+	for i, b := range decBounds {
+		r.Check(encK >= 0 && encK <= b.K, "R-C11.5", fmt.Sprintf("nodeenrollment.DecryptMessage ciphertext bound#%d", i), p.Pos(b.If.Pos()),
+			fmt.Sprintf("EncryptMessage bounds its output by %d <= %d", encK, b.K),
+			fmt.Sprintf("DecryptMessage rejects ciphertexts longer than %d bytes but EncryptMessage does not bound the bytes it returns by that much (it bounds a different quantity or nothing): messages just under the limit encrypt but can never be decrypted", b.K))
+	}
+}
+
+// paramNamedOrTyped returns parameter i of fn.
+func paramNamedOrTyped(fn *ssa.Function, i int) *ssa.Parameter {
+	if i < len(fn.Params) {
+		return fn.Params[i]
+	}
+	return nil
 }
